@@ -9,13 +9,17 @@
 \* Policy = "store_none"     a failed search is remembered as None and a hit on None means "none"
 \* Policy = "store_empty"    (the defective design, kept as a negative model) a failed search is
 \*                           remembered as the empty value and a later hit reads it as a value
-\* T-MemoTransparent: every answer equals the answer computed from the facts alone, whatever was
+\* Between two API calls the caller may CHANGE the tree (Mutate: another assignment of facts).
+\* Lifetime = "call"        the memo tables belong to the matcher of one call (a new call starts with empty tables)
+\* Lifetime = "process"     (negative model) the tables live in the class / module and survive the call: stale after a Mutate
+\* T-MemoTransparent: every answer equals the answer computed from the CURRENT facts alone, whatever was
 \* examined before; every memo entry denotes the fact it caches.
 EXTENDS Naturals, Sequences, FiniteSets, TLC
-CONSTANTS Elements, Keys, Need, Fact, None, Empty, Policy
-VARIABLES memo, answers, todo
+CONSTANTS Elements, Keys, Need, Facts, None, Empty, Policy, Lifetime
+VARIABLES memo, answers, todo, fact
+Fact == fact
 
-Init == memo = [k \in {} |-> None] /\ answers = [e \in {} |-> None] /\ todo = Elements
+Init == memo = [k \in {} |-> None] /\ answers = [e \in {} |-> None] /\ todo = Elements /\ fact \in Facts
 
 Stored(v) == IF v = None /\ Policy = "store_empty" THEN Empty ELSE v
 \* what the evaluation of one element sees for key k, given the memo
@@ -26,9 +30,16 @@ Examine(e) ==
     /\ answers' = [x \in DOMAIN answers \cup {e} |-> IF x = e THEN [k \in Need[e] |-> Seen(k)] ELSE answers[x]]
     /\ memo' = [k \in DOMAIN memo \cup Need[e] |-> IF k \in DOMAIN memo THEN memo[k] ELSE Stored(Fact[k])]
     /\ todo' = todo \ {e}
-\* a new API call starts with empty memo tables
-NewCall == todo = {} /\ memo' = [k \in {} |-> None] /\ todo' = Elements /\ UNCHANGED answers
-Next == (\E e \in Elements : Examine(e)) \/ NewCall
+    /\ UNCHANGED fact
+\* a new API call starts with empty memo tables (when they belong to the call)
+NewCall == /\ todo = {} /\ todo' = Elements /\ UNCHANGED <<answers, fact>>
+           /\ memo' = IF Lifetime = "call" THEN [k \in {} |-> None] ELSE memo
+\* between two calls the tree is changed through the bs4 API: other facts; the answers given so far were about the old tree
+Mutate == /\ todo = {} /\ \E f \in Facts : f # fact /\ fact' = f
+          /\ answers' = [e \in {} |-> None]
+          /\ memo' = IF Lifetime = "call" THEN [k \in {} |-> None] ELSE memo      \* (the call is over: its tables are gone with it)
+          /\ todo' = Elements
+Next == (\E e \in Elements : Examine(e)) \/ NewCall \/ Mutate
 
 MemoTransparent ==
     /\ \A e \in DOMAIN answers : answers[e] = [k \in Need[e] |-> Fact[k]]
